@@ -527,16 +527,97 @@ def expect_certified_n(sc: dict, prot: List[str]) -> str:
     return "certifiedN-fw2" if sc["block"] == "fw_second_stage_deny" else "certifiedN"
 
 
+OFF_DEVICE = {"sw2_off": "SW2", "sw1_off": "SW1", "b_off": "B", "fw_off": "FW"}
+
+
+def power_device(sc: dict) -> str:
+    return sc.get("at", "R1") if sc["block"] == "router_off" else OFF_DEVICE[sc["block"]]
+
+
+def transitional_states(sc: dict) -> List[str]:
+    """operating state of the device at each of A's operations (operation k comes k - 1 ticks after the accepted request), from
+    the code's test-then-decrement countdowns: a countdown of d is left at the (d + 1)-th tick (C12_shutdown_timing / C12_boot_timing;
+    Props/C06Power.lean C06_shutdown_window / C06_boot_window / C06_reset_window)"""
+    d, u, n = sc.get("shut", 2), sc.get("boot", 0), len(sc["post_ops"])
+    if sc["phase"] == "countdown":
+        seq = ["SHUTTING_DOWN"] * (d + 1) + ["OFF"] * n
+    elif sc["phase"] == "boot":
+        seq = ["BOOTING"] * (u + 1) + ["ON"] * n
+    else:
+        seq = ["SHUTTING_DOWN"] * (d + 1) + ["BOOTING"] * (u + 1) + ["ON"] * n
+    return seq[:n]
+
+
+def transitional_scenarios(rng: Rng, every_duration: bool) -> List[dict]:
+    """ENUMERATED family: a block that is in force DURING a transitional power state.  For every kind of device on the path (switch
+    on A's side, switch on B's side, router, second router, firewall from each zone pair sampled, host B itself) x every window
+    (SHUTTING_DOWN countdown after an accepted shutdown; BOOTING countdown after an accepted startup of a device that was OFF; the
+    reset window SHUTTING_DOWN -> OFF -> BOOTING) x positive durations (quick: one of 1, 2, 3 (the default), 5 per scenario; thorough:
+    all of them), A sends traffic in the step of the request AND at every later tick of the window (the operation list is as long as
+    the window).  The oracle is the usual one: B's side as in the run in which A idles."""
+    devices = [("switched", "sw1_off", {}), ("switched", "sw2_off", {}), ("switched", "b_off", {}),
+               ("routed", "router_off", {"routers": 1, "at": "R1"}), ("routed", "router_off", {"routers": 2, "at": "R2"}),
+               ("routed", "sw2_off", {"routers": 1, "at": "R1"}), ("routed", "b_off", {"routers": 1, "at": "R1"}),
+               ("firewall", "fw_off", None), ("firewall", "b_off", None)]
+    attack = ["ping", "data_manip", "db_query_new", "port_scan_tcp", "port_scan_udp", "c_ping", "ransomware", "dos", "ftp_send",
+              "web_get", "port_scan_none", "ping_scan", "term_login"]
+    out = []
+    for fam, block, extra in devices:
+        for phase in ("countdown", "boot", "reset"):
+            for d in ([1, 2, 3, 5] if every_duration else [rng.choice([1, 2, 3, 3, 5])]):
+                sc: Dict[str, Any] = {"family": fam, "block": block, "phase": phase, "rule_pos": 0,
+                                      "via": rng.choice(["request", "method"])}
+                if extra is None:
+                    za = rng.choice(["ext", "int", "dmz"])
+                    sc["a_zone"], sc["b_zone"] = za, rng.choice([z for z in ("ext", "int", "dmz") if z != za])
+                else:
+                    sc.update(extra)
+                u = rng.choice([1, 2, 3])
+                sc["shut"] = d if phase != "boot" else rng.choice([0, 2])
+                if phase != "countdown":
+                    sc["boot"] = d if phase == "boot" else u
+                window = {"countdown": d + 1 + 2, "boot": d + 1, "reset": d + 1 + u + 1}[phase]  # countdown: two more ops once OFF
+                sc["pre_ops"] = [rng.choice(["ping", "db_connect", "tick", "c_ping", "port_scan_tcp"])]
+                sc["post_ops"] = [rng.choice(attack) for _ in range(window)]
+                out.append(sc)
+    return out
+
+
 def apply_block(sc: dict, sim, N, info, timestep_fn):
     from primaite.simulator.network.hardware.nodes.network.router import ACLAction
     m = sc["block"]
     pos = sc.get("rule_pos", 0)
     b_ip = info["b_ip"]
 
+    def _power(n, verb):
+        # the ordinary node request (what the node-shutdown / node-startup / node-reset actions send) or the method behind it
+        if sc.get("via") == "request":
+            resp = sim.network.apply_request(["node", n.config.hostname, verb], {})
+            if resp.status != "success":
+                raise RuntimeError(f"transitional scenario: request {verb} on {n.config.hostname} answered {resp.status}")
+        else:
+            ok = {"shutdown": n.power_off, "startup": n.power_on, "reset": n.reset}[verb]()
+            if not ok:
+                raise RuntimeError(f"transitional scenario: {verb} on {n.config.hostname} refused")
+
     def power_off(n):
+        phase = sc.get("phase")
+        if phase == "countdown":
+            # the block is the ACCEPTED shutdown: A's operations follow at once, one per tick of the countdown (no waiting for OFF)
+            _power(n, "shutdown")
+            return
+        if phase == "reset":
+            # reset = SHUTTING_DOWN (shut ticks) -> OFF -> BOOTING (boot ticks) -> ON: the whole window is a block
+            n.config.start_up_duration = sc["boot"]
+            _power(n, "reset")
+            return
         n.power_off()
         for _ in range(n.config.shut_down_duration + 2):
             timestep_fn()
+        if phase == "boot":
+            # the device is OFF; the defender starts it: it stays BOOTING (not ON) for `boot` more ticks
+            n.config.start_up_duration = sc["boot"]
+            _power(n, "startup")
 
     if m == "sw1_uplink_disabled":
         N["SW1"].network_interface[6].disable()
@@ -555,7 +636,7 @@ def apply_block(sc: dict, sim, N, info, timestep_fn):
         name = sc["remove"]
         sim.network.remove_link(info["links"][name])
     elif m in ("sw2_off", "sw1_off", "b_off", "router_off", "fw_off"):
-        power_off(N[{"sw2_off": "SW2", "sw1_off": "SW1", "b_off": "B", "router_off": sc.get("at", "R1"), "fw_off": "FW"}[m]])
+        power_off(N[power_device(sc)])
     elif m.startswith("router_deny"):
         r = N[sc.get("at", "R1")]
         if m == "router_deny_anyany":
@@ -733,13 +814,14 @@ def _run_once(sc: dict, with_block: bool, post_ops: List[str], wrappers: bool, p
             errors.append(f"tick: {type(e).__name__}: {str(e)[:80]}")
         t["n"] += 1
 
-    def guarded(op):
+    def guarded(op, then_tick=True):
         try:
             log.append(f"{op}={do_op(op, N, info)}")
         except Exception as e:  # an operation that raises is recorded (C01's business) but must still not touch B
             errors.append(f"{op}: {type(e).__name__}: {str(e)[:80]}")
             log.append(f"{op}=raised:{type(e).__name__}")
-        tick()
+        if then_tick:
+            tick()
 
     real_isp, real_tx, real_srx, real_proc = (AccessControlList.is_permitted, Link.transmit_frame, SessionManager.receive_frame,
                                               Router.process_frame)
@@ -937,14 +1019,29 @@ def _run_once(sc: dict, with_block: bool, post_ops: List[str], wrappers: bool, p
             guarded(op)
         if with_block:
             apply_block(sc, sim, N, info, tick)
-        tick()
+        # transitional scenarios (`phase`): the first operation of A falls into the very step of the accepted request, the k-th one
+        # k - 1 ticks later; nothing is ticked after the last one (a `boot` / `reset` window must not have ended when B is read)
+        phase = sc.get("phase")
+        if not phase:
+            tick()
         at_block = {h: node_obs(N[h]) for h in prot}
         topo = topo_lines(sc, sim, N, prot, info) if (with_block or sc.get("_want_topo")) else []
         to_prot["on"] = True
-        for op in post_ops:
-            guarded(op)
-        tick()
-    return {"obs": {h: node_obs(N[h]) for h in prot}, "at_block": at_block, "topo": topo, "to_prot": to_prot["n"], "to_prot_arp": to_prot["arp"], "log": log, "errors": errors,
+        power_trace = []
+        dev = N.get(power_device(sc)) if phase else None
+        for i, op in enumerate(post_ops):
+            if dev is not None:
+                power_trace.append(dev.operating_state.name)
+            guarded(op, then_tick=not (phase and i == len(post_ops) - 1))
+        if not phase:
+            tick()
+        if phase and with_block:
+            want = transitional_states(sc)
+            if power_trace != want:
+                # the scenario is built so that A acts at EVERY tick of the window; if the device's states at A's operations are
+                # not the expected ones the scenario does not test what it says (C12 owns the timing itself)
+                errors.append(f"power-trace: {power_trace} expected {want}")
+    return {"power_trace": power_trace, "obs": {h: node_obs(N[h]) for h in prot}, "at_block": at_block, "topo": topo, "to_prot": to_prot["n"], "to_prot_arp": to_prot["arp"], "log": log, "errors": errors,
             "frame_viol": frame_viol, "closure": closure, "model_ok": model_ok, "model_bad": model_bad[:3]}
 
 
@@ -987,7 +1084,7 @@ def run_scenario(sc: dict, control: bool = True) -> dict:
     violations.sort(key=lambda v: 0 if v.get("node") == "B" else 1)
     for v in sorted(set(attack["frame_viol"])):
         violations.append({"kind": "denied-frame-not-inert", "what": v})
-    res = {"violations": violations, "log": attack["log"], "errors": attack["errors"], "nontrivial": None, "protected": prot,
+    res = {"power_trace": attack["power_trace"], "violations": violations, "log": attack["log"], "errors": attack["errors"], "nontrivial": None, "protected": prot,
            "topo": attack["topo"], "closure": attack["closure"], "topo_ctl": [],
            "model_ok": {k: attack["model_ok"].get(k, 0) + idle["model_ok"].get(k, 0)
                         for k in set(attack["model_ok"]) | set(idle["model_ok"])},
@@ -1074,6 +1171,8 @@ def directed_scenarios(rng: Rng) -> List[dict]:
 
 def sig_of(sc: dict, v: dict) -> dict:
     s = {"kind": v["kind"], "family": sc["family"], "block": sc["block"]}
+    if sc.get("phase"):
+        s["phase"] = sc["phase"]
     if sc["family"] == "firewall":
         s["a_zone"] = sc.get("a_zone")
         s["b_behind_router"] = bool(sc.get("b_behind_router"))
@@ -1090,6 +1189,8 @@ def run(ctx: Ctx):
     rng = ctx.rng.fork("net")
     for k, sc in enumerate(directed_scenarios(ctx.rng.fork("net-directed"))):
         scenarios.append((f"directed:{k}", sc))
+    for k, sc in enumerate(transitional_scenarios(ctx.rng.fork("net-transitional"), every_duration=ctx.thorough)):
+        scenarios.append((f"transitional:{k}", sc))
     for k in range(ctx.scale(45, 900)):
         scenarios.append((f"gen:{k}", gen_scenario(rng, max_ops=ctx.scale(6, 10))))
     clean = 0
@@ -1188,6 +1289,19 @@ def run(ctx: Ctx):
                 # software answers): it does not hold for this run, so the class theorem does not cover the scenario (oracle only)
                 ctx.count(f"net:closure-hypothesis-does-not-hold:{sc['block']}")
                 res["closure_fails"] = True
+    trace_bad = []
+    for name, sc, res in results:
+        if sc.get("phase"):
+            for stt in res["power_trace"]:
+                ctx.count(f"net:transitional:{sc['phase']}:A-acts-while-{power_device(sc)}-is-{stt}")
+            ctx.count(f"net:transitional:duration={sc['boot'] if sc['phase'] == 'boot' else sc['shut']}")
+            bad = [e for e in res["errors"] if e.startswith("power-trace")]
+            if bad:
+                trace_bad.append(f"{name} {sc['family']}/{sc['block']}/{sc['phase']}: {bad[0]}")
+    ctx.oblige("rig:R-net transitional family: in every scenario A's operations fall on EVERY tick of the window (the step of the accepted "
+               "shutdown / startup / reset request and each later tick while the device is SHUTTING_DOWN / BOOTING), as the countdown "
+               "theorems C06_shutdown_window / C06_boot_window / C06_reset_window say", "correspondence", not trace_bad,
+               "; ".join(trace_bad[:5]))
     ctx.oblige("rig:R-net the proved cut certificate accepts the real post-block network", "correspondence", not cert_bad,
                "; ".join(cert_bad[:5]))
     ctx.oblige("rig:R-net the proved class-aware certificate (certifyC) accepts the real post-block network of EVERY scenario",
